@@ -47,9 +47,129 @@ inst_secs(echs_instant_t i)
 	return rf_secs(t);
 }
 
+/* mode=duprdate: the event keeps its RRULE; three candidate instants (10:00Z and 02:00Z next day, which are no
+ * rule instance, and 12:00Z, which is one) are each listed 0, 1 or 2 times as RDATE, every copy in every written
+ * form (own line each, or all copies of all instants in one comma list when all are UTC), and every subset of the
+ * three is excepted by EXDATE.  Delivered must be (rule instances u listed instants) minus the excepted ones, each
+ * once: the recurrence set is a set. */
+static void
+enumerate_dup(void)
+{
+	const int nforms = (int)vd_opt_l("forms", 2);
+	int64_t cand[3], inst[6];
+	rf_dt b = {2020, 2, 29, 8, 0, 0, 0};
+
+	base = rf_secs(b);
+	for (int i = 0; i < 6; i++) inst[i] = base + (int64_t)i * 4 * 3600;
+	cand[0] = base + 2 * 3600, cand[1] = base + 4 * 3600, cand[2] = base + 18 * 3600;
+	vd_count_cases = 0;
+	for (int mult = 1; mult < 27; mult++) {
+		const int mu[3] = {mult % 3, mult / 3 % 3, mult / 9};
+		const int ncopies = mu[0] + mu[1] + mu[2];
+		unsigned nass = 1;
+		for (int i = 0; i < ncopies; i++) nass *= (unsigned)nforms;
+		for (unsigned ex = 0; ex < 8; ex++) {
+			if (!vd_next()) continue;
+			vd_shape("duprdate/copies=%d%d%d/ex=%u", mu[0], mu[1], mu[2], ex);
+			for (unsigned a = 0; a <= nass; a++) {
+				/* a == nass: one comma list, all UTC */
+				char body[2048], text[2560];
+				size_t o = 0;
+				unsigned aa = a;
+				int64_t want[16], got[32];
+				int nw = 0, ng = 0, hasdup = mu[0] > 1 || mu[1] > 1 || mu[2] > 1;
+
+				o += (size_t)snprintf(body + o, sizeof(body) - o, "DTSTART:20200229T080000Z\nRRULE:FREQ=HOURLY;INTERVAL=4;COUNT=6\n");
+				if (a == nass) {
+					int first = 1;
+					for (int c = 0; c < 3; c++) for (int k = 0; k < mu[c]; k++) {
+						rf_dt d = rf_from_secs(cand[c], 0);
+						o += (size_t)snprintf(body + o, sizeof(body) - o, "%s%04d%02d%02dT%02d%02d%02dZ", first ? "RDATE:" : ",", d.y, d.m, d.d, d.H, d.M, d.S);
+						first = 0;
+					}
+					o += (size_t)snprintf(body + o, sizeof(body) - o, "\n");
+				} else {
+					for (int c = 0; c < 3; c++) for (int k = 0; k < mu[c]; k++, aa /= (unsigned)nforms) {
+						o += put_value(body + o, sizeof(body) - o, "RDATE", cand[c], &forms[aa % (unsigned)nforms]);
+					}
+				}
+				for (int c = 0; c < 3; c++) if (ex >> c & 1U) o += put_value(body + o, sizeof(body) - o, "EXDATE", cand[c], &forms[0]);
+				ical_wrap(text, sizeof(text), "duprdate@verif", body);
+				vd_sh->evals++;
+				vd_desc("%s", body);
+				for (char *q = vd_sh->desc; *q; q++) if (*q == '\n') *q = ' ';
+				for (int i = 0; i < 6; i++) {
+					int x = 0;
+					for (int c = 0; c < 3; c++) x |= (ex >> c & 1U) && cand[c] == inst[i];
+					if (!x) want[nw++] = inst[i];
+				}
+				for (int c = 0; c < 3; c++) {
+					int have = 0;
+					if (!mu[c] || (ex >> c & 1U)) continue;
+					for (int j = 0; j < nw; j++) have |= want[j] == cand[c];
+					if (!have) want[nw++] = cand[c];
+				}
+				echs_task_t t = ical_task1(text);
+				if (t == NULL || t->strm == NULL) {
+					vd_viol("rejected/duprdate", "no task/stream for a well-formed event");
+					if (t) free_echs_task(t);
+					continue;
+				}
+				for (; ng < 32; ng++) {
+					echs_event_t e = echs_evstrm_pop(t->strm);
+					if (echs_nul_event_p(e)) break;
+					got[ng] = inst_secs(e.from);
+				}
+				free_echs_task(t);
+				if (hasdup && ex) vd_nontrivial();
+				if (vd_want_sample() && hasdup && ex) vd_sample("RDATE copies %d/%d/%d of {10Z*,12Z,02Z*}, EXDATE subset %#x -> %d occurrences", mu[0], mu[1], mu[2], ex, ng);
+				const char *lay = a == nass ? "list" : "lines";
+				char sig[96];
+				for (int j = 0; j < ng; j++) {
+					int f = 0;
+					for (int i = 0; i < nw; i++) f |= got[j] == want[i];
+					if (!f) {
+						int named = 0;
+						for (int c = 0; c < 3; c++) named |= (ex >> c & 1U) && cand[c] == got[j];
+						snprintf(sig, sizeof(sig), "%s/duprdate/%s/%s", named ? "not-excluded" : "spurious", lay, hasdup ? "dups" : "nodups");
+						vd_viol(sig, "occurrence at +%lldh is delivered but %s", (long long)((got[j] - base) / 3600), named ? "is named by an EXDATE" : "is neither a rule instance nor listed");
+						break;
+					}
+				}
+				for (int i = 0; i < nw; i++) {
+					int f = 0;
+					for (int j = 0; j < ng; j++) f |= got[j] == want[i];
+					if (!f) {
+						snprintf(sig, sizeof(sig), "missing/duprdate/%s/%s", lay, hasdup ? "dups" : "nodups");
+						vd_viol(sig, "expected occurrence at +%lldh is not delivered", (long long)((want[i] - base) / 3600));
+						break;
+					}
+				}
+				for (int j = 1; j < ng; j++) {
+					if (got[j] == got[j - 1]) {
+						int isrule = 0;
+						for (int i = 0; i < 6; i++) isrule |= inst[i] == got[j];
+						snprintf(sig, sizeof(sig), "twice/duprdate/%s/%s", lay, isrule ? "rule-instance" : "rdate-only");
+						vd_viol(sig, "the occurrence at +%lldh is delivered twice", (long long)((got[j] - base) / 3600));
+						break;
+					} else if (got[j] < got[j - 1]) {
+						snprintf(sig, sizeof(sig), "order/duprdate/%s", lay);
+						vd_viol(sig, "occurrence %d lies before occurrence %d", j, j - 1);
+						break;
+					}
+				}
+			}
+		}
+	}
+}
+
 static void
 enumerate(void)
 {
+	if (!strcmp(vd_opt("mode", "exdate"), "duprdate")) {
+		enumerate_dup();
+		return;
+	}
 	const int rdate = !strcmp(vd_opt("mode", "exdate"), "rdate");
 	const int nforms = (int)vd_opt_l("forms", NFORMS);
 	/* the universe: the six occurrences plus two instants in between */
